@@ -13,7 +13,7 @@ META = dict(
               "executable monitor running the reference store beside the observed trace. Tie: generated server<> "
               "instantiations with every value kind, sizes 1, 2, 4, 20, 23, 64 and permission option; request sequences "
               "with offsets and lengths around the value size and the MTU; bound variables inspected after every write",
-    level_note="proved (unbounded: all value kinds, sizes, offsets, lengths, states): a successful write stores exactly splice old off data in this characteristic and a rejected write changes nothing; reads return sub value off (min maxlen (size-off)) or Invalid Offset iff off > size; write permission for every value kind; read permission for every value kind except (read handler + no_read_access) - refuted with witness, known finding; properties byte = reference byte with its bits characterised; the monitor (reference store beside the trace, exact response bytes incl. MTU truncation) accepts every model trace without Read By Type / Read Multiple for configurations without that finding. Only monitored / tied: the scans of Read By Type / Read Multiple responses for unreadable values. See docs/C06.md")
+    level_note="proved (unbounded: all value kinds, sizes, offsets, lengths, states): a successful write stores exactly splice old off data in this characteristic and a rejected write changes nothing; reads return sub value off (min maxlen (size-off)) or Invalid Offset iff off > size; write permission for every value kind; read permission for every value kind except (read handler + no_read_access) - refuted with witness, known finding; properties byte = reference byte with its bits characterised; the monitor (reference store beside the trace, exact response bytes incl. MTU truncation) accepts every model trace: histories without Read By Type / Read Multiple for every configuration without that finding, and ALL histories (scanned responses included) for well formed configurations without include_service<> and without that finding. With include_service<> the scans are tied only. See docs/C06.md")
 
 
 class C06(AttBase):
